@@ -13,7 +13,7 @@ Proof.
   induction w as [|c w IH]; intros p rh cu fs rest p' H Hr.
   - cbn [hterm] in H. inversion H; subst. reflexivity.
   - cbn [hterm] in H. cbn [app feed]. unfold step. cbn [st pos rhdr cur rfiles ready].
-    destruct (Nat.eqb (if c =? nth p crlfcrlf 0 then S p else 0%nat) 4) eqn:E4; [discriminate|].
+    destruct (Nat.eqb (if c =? nth p crlfcrlf 0 then S p else if c =? 13 then 1%nat else 0%nat) 4) eqn:E4; [discriminate|].
     assert (is_nil (w ++ rest) = false) as Hn0 by (apply is_nil_app_r; exact Hr).
     rewrite Hn0. cbn [end_ev ev_ok].
     rewrite (IH _ (c :: rh) cu fs rest p' H Hr). cbn [rev]. rewrite <- app_assoc. reflexivity.
